@@ -481,9 +481,274 @@ def count_pipe(ctx, c):
         ctx.count('pipeline:episode without a pair')
 
 
+# ----------------------------------------------------------------------------- exception safety / process-level state
+# The property quantifies over every data set given to a COMPLETE fit. What the process did before - in particular a fit
+# that was stopped by an exception at an arbitrary point (Ctrl-C, MemoryError, a failing sub-call) - is not a parameter of
+# the property: fresh estimators (and the interrupted object itself, fitted again) must still return the optimum / [A B].
+
+class _Injected(Exception):
+    """an ordinary exception raised by a sub-call (as opposed to KeyboardInterrupt / MemoryError)"""
+
+
+INJECTED = {'KeyboardInterrupt': KeyboardInterrupt, 'MemoryError': MemoryError, 'Exception': _Injected}
+
+
+class _InjectAt:
+    """sys.settrace hook: raises `exc` at the k-th event counted inside the chosen pykoop source files. mode 'line': the k-th
+    executed line of those files; mode 'call': entry of the k-th Python-level sub-call made from a frame of those files (the
+    sub-call raises before doing anything). k = None only counts."""
+
+    def __init__(self, files, mode, k, exc):
+        self.files, self.mode, self.k, self.exc = files, mode, k, exc
+        self.n = 0
+        self.fired = False
+        self.where = None
+        self._names = {}
+
+    def _in(self, frame):
+        fn = frame.f_code.co_filename
+        r = self._names.get(fn)
+        if r is None:
+            import os
+            r = self._names[fn] = os.path.realpath(fn) in self.files
+        return r
+
+    def _hit(self, frame):
+        self.n += 1
+        if self.k is not None and self.n == self.k and not self.fired:
+            self.fired = True
+            self.where = f'{frame.f_code.co_filename.rsplit("/", 1)[-1]}:{frame.f_lineno} ({frame.f_code.co_name})'
+            raise self.exc()
+
+    def __call__(self, frame, event, arg):
+        if self.fired:
+            return None
+        if self.mode == 'call':
+            if event == 'call' and frame.f_back is not None and self._in(frame.f_back):
+                self._hit(frame)
+            return None
+        return self._local if self._in(frame) else None
+
+    def _local(self, frame, event, arg):
+        if event == 'line' and not self.fired:
+            self._hit(frame)
+        return self._local
+
+
+def _traced_fit(est, X, nu, ep, hook):
+    """est.fit under the hook; returns the exception that ended the fit (None if it ran to completion)"""
+    import sys
+    old = sys.gettrace()
+    sys.settrace(hook)
+    try:
+        est.fit(X, n_inputs=nu, episode_feature=ep)
+    except BaseException as ex:
+        sys.settrace(old)
+        if isinstance(ex, _Timeout) or (isinstance(ex, KeyboardInterrupt) and not hook.fired):
+            raise           # the harness's own time limit / a real Ctrl-C, not the injected exception
+        return ex
+    finally:
+        sys.settrace(old)
+    return None
+
+
+def _pykoop_files(which):
+    import os
+    import pykoop.regressors
+    import pykoop.koopman_pipeline
+    reg = os.path.realpath(pykoop.regressors.__file__)
+    if which == 'regressors.py':
+        return {reg}
+    d = os.path.dirname(reg)
+    return {os.path.join(d, f) for f in os.listdir(d) if f.endswith('.py')}
+
+
+def _linear_set(rng, rs, nx, nu, ep):
+    """noise-free data of a random x+ = A x + B u with exciting inputs (cond(Psi) <= 100), its [A B] and its snapshot pairs"""
+    for _ in range(50):
+        A = rs.uniform(-1, 1, (nx, nx))
+        A *= rng.choice([0.6, 0.95, 1.05]) / max(0.2, np.max(np.abs(np.linalg.eigvals(A))))
+        B = rs.uniform(-1, 1, (nx, nu))
+        blocks = []
+        for l in rng.sample(range(9), rng.randint(1, 3) if ep else 1):
+            n = nx + nu + rng.randint(4, 10)
+            x = np.zeros((n, nx))
+            u = rs.uniform(-1, 1, (n, nu))
+            x[0] = rs.uniform(-1, 1, nx)
+            for k in range(n - 1):
+                x[k + 1] = A @ x[k] + B @ u[k]
+            blocks.append((l, np.hstack((x, u))))
+        Psi = np.vstack([Xe[:-1] for _, Xe in blocks]).T
+        if np.linalg.cond(Psi) > 100:
+            continue
+        Theta = np.vstack([Xe[1:, :nx] for _, Xe in blocks]).T
+        X = st.ref_combine(blocks, ep) if ep else blocks[0][1]
+        return {'X': X, 'K': np.hstack((A, B)), 'Psi': Psi, 'Theta': Theta, 'nx': nx, 'nu': nu, 'ep': ep}
+    return None
+
+
+SAFETY_REGRESSORS = ('Edmd(0)', 'Edmd(0)', 'Edmd(alpha)', 'EdmdMeta', 'EdmdMeta', 'Dmdc', 'Dmd',
+                     'pipeline(Edmd)', 'pipeline(EdmdMeta)', 'pipeline(poly, Edmd)')
+
+
+def _make(name, alpha):
+    if name == 'Edmd(0)':
+        return pykoop.Edmd(alpha=0)
+    if name == 'Edmd(alpha)':
+        return pykoop.Edmd(alpha=alpha)
+    if name == 'EdmdMeta':
+        return pykoop.EdmdMeta()
+    if name == 'Dmdc':
+        return pykoop.Dmdc()
+    if name == 'Dmd':
+        return pykoop.Dmd()
+    if name == 'pipeline(Edmd)':
+        return pykoop.KoopmanPipeline(regressor=pykoop.Edmd(alpha=alpha))
+    if name == 'pipeline(EdmdMeta)':
+        return pykoop.KoopmanPipeline(regressor=pykoop.EdmdMeta())
+    if name == 'pipeline(poly, Edmd)':
+        return pykoop.KoopmanPipeline(lifting_functions=[('pl', pykoop.PolynomialLiftingFn(order=2))], regressor=pykoop.Edmd(alpha=alpha))
+    raise ValueError(name)
+
+
+def _complete_fits_ok(D, alpha, again=None):
+    """the property, on COMPLETE fits of fresh estimators given data set D (and of `again`, an estimator object whose earlier
+    fit was interrupted): [A B] is recovered by the alpha = 0 / default regressors and by a pipeline around them, Edmd(alpha)
+    obeys the normal equations of D's own snapshot pairs and is not beaten by the optimum computed here"""
+    X, K, Psi, Theta, nu, ep = D['X'], D['K'], D['Psi'], D['Theta'], D['nu'], D['ep']
+    p = Psi.shape[0]
+    tol = 1e-7 * max(1.0, np.max(np.abs(K))) * np.linalg.cond(Psi)
+    fresh = [('Edmd(alpha=0)', pykoop.Edmd(alpha=0), 0.0), ('EdmdMeta()', pykoop.EdmdMeta(), None),
+             (f'Edmd(alpha={alpha:g})', pykoop.Edmd(alpha=alpha), alpha), ('Dmdc()', pykoop.Dmdc(), None),
+             ('KoopmanPipeline(regressor=Edmd(alpha=0))', pykoop.KoopmanPipeline(regressor=pykoop.Edmd(alpha=0)), 0.0),
+             ('KoopmanPipeline(regressor=EdmdMeta())', pykoop.KoopmanPipeline(regressor=pykoop.EdmdMeta()), None)]
+    if nu == 0:
+        fresh.append(('Dmd()', pykoop.Dmd(), None))
+    if again is not None:
+        fresh.append(again)
+    for name, est, a in fresh:
+        try:
+            with time_limit(10):
+                est.fit(X, n_inputs=nu, episode_feature=ep)
+        except _Timeout:
+            continue
+        except Exception as ex:
+            return f'a complete fit of {name} on valid data raises {type(ex).__name__} ({str(ex)[:100]})'
+        reg = est.regressor_ if isinstance(est, pykoop.KoopmanPipeline) else est
+        U = np.asarray(reg.coef_, dtype=float).T
+        if U.shape != K.shape:
+            return f'a complete fit of {name} returns coef_ of shape {U.T.shape}, expected {K.T.shape}'
+        if a is None or a == 0:
+            err = np.max(np.abs(U - K))
+            if not err <= tol:
+                return f'a complete fit of {name} does not recover [A B] from noise-free data (max error {err:.3g}, cond(Psi)={np.linalg.cond(Psi):.3g})'
+        if a is not None:
+            grad = -2 * (Theta - U @ Psi) @ Psi.T + 2 * a * U
+            scale = max(1.0, np.max(np.abs(Theta @ Psi.T)))
+            if not np.max(np.abs(grad)) <= 1e-7 * scale * (1.0 if a > 0 else np.linalg.cond(Psi) ** 2):
+                return f'a complete fit of {name}: normal equations violated, max |gradient| = {np.max(np.abs(grad)):.3g}'
+            Ma = np.vstack((Psi.T, np.sqrt(a) * np.eye(p)))
+            Mb = np.vstack((Theta.T, np.zeros((p, Theta.shape[0]))))
+            U_ref = np.linalg.lstsq(Ma, Mb, rcond=None)[0].T
+            base, best = cost(Psi, Theta, a, U), cost(Psi, Theta, a, U_ref)
+            if not base <= best + 1e-9 * max(1.0, np.linalg.norm(Theta, 'fro') ** 2):
+                return f'a complete fit of {name}: cost {base:.6g} although another matrix attains {best:.6g}'
+    return None
+
+
+def oracle_interrupted(rng, count=lambda k: None, max_points=40):
+    """One scenario: (1) complete fits on a data set D1, (2) a fit on a data set D2 stopped by an exception injected at EVERY
+    point in turn (successive line events inside pykoop, or successive sub-calls made raise), (3) complete fits of fresh
+    estimators (and of the interrupted object) on D2, D1 and a third data set: all of them must obey the property.
+    Returns (why, case)."""
+    rs = np.random.RandomState(rng.randint(0, 2 ** 31 - 1))
+    nx, nu = rng.randint(1, 4), rng.randint(0, 2)
+    ep = rng.random() < 0.4
+    D1 = _linear_set(rng, rs, nx, nu, ep)
+    same = rng.random() < 0.8            # D2 of the same width as D1 (an alpha sweep / a re-run cell), or of another one
+    D2 = _linear_set(rng, rs, nx, nu, ep) if same else _linear_set(rng, rs, rng.randint(1, 4), rng.randint(0, 2), rng.random() < 0.4)
+    D3 = _linear_set(rng, rs, nx, nu, ep)
+    if D1 is None or D2 is None or D3 is None:
+        return None, None
+    alpha = rng.choice([0.25, 0.5, 1.0, 2.5])
+    prior = [rng.choice(SAFETY_REGRESSORS) for _ in range(rng.randint(0, 2))]
+    prior = [r for r in prior if r != 'Dmd' or D1['nu'] == 0]
+    victim = rng.choice([r for r in SAFETY_REGRESSORS if r != 'Dmd' or D2['nu'] == 0])
+    which = rng.choice(['regressors.py', 'regressors.py', 'pykoop/*.py'])
+    mode = rng.choice(['line', 'line', 'line', 'call'])
+    exc = rng.choice(sorted(INJECTED))
+    files = _pykoop_files(which)
+    case = {'part': 'exception safety', 'D1': {'X': D1['X'].tolist(), 'nu': D1['nu'], 'ep': D1['ep'], 'AB': D1['K'].tolist()},
+            'D2': {'X': D2['X'].tolist(), 'nu': D2['nu'], 'ep': D2['ep'], 'AB': D2['K'].tolist()},
+            'D3': {'X': D3['X'].tolist(), 'nu': D3['nu'], 'ep': D3['ep'], 'AB': D3['K'].tolist()},
+            'alpha': alpha, 'complete fits on D1 first': prior, 'interrupted fit on D2': victim,
+            'injected': exc, 'event': mode, 'files': which}
+    # how many injection points a complete fit of the victim passes (this is itself a complete, valid fit on D2)
+    hook = _InjectAt(files, mode, None, None)
+    try:
+        with time_limit(20):
+            ex = _traced_fit(_make(victim, alpha), D2['X'], D2['nu'], D2['ep'], hook)
+    except _Timeout:
+        count('exception safety: timeout')
+        return None, case
+    if ex is not None:
+        return f'a complete fit of {victim} on valid data raises {type(ex).__name__} ({str(ex)[:100]})', case
+    total = hook.n
+    ks = list(range(1, total + 1))
+    if total > max_points:
+        ks = sorted(rng.sample(ks, max_points))
+    count(f'exception safety: scenarios ({mode} events in {which})')
+    for k in ks:
+        case['k'] = k
+        try:
+            with time_limit(20):
+                for r in prior:
+                    try:
+                        _make(r, alpha).fit(D1['X'], n_inputs=D1['nu'], episode_feature=D1['ep'])
+                    except _Timeout:
+                        raise
+                    except Exception as ex:
+                        return f'a complete fit of {r} on valid data (D1) raises {type(ex).__name__} ({str(ex)[:100]}) at round {k} of the scenario', case
+                est = _make(victim, alpha)
+                hook = _InjectAt(files, mode, k, INJECTED[exc])
+                ex = _traced_fit(est, D2['X'], D2['nu'], D2['ep'], hook)
+        except _Timeout:
+            count('exception safety: timeout')
+            continue
+        if not hook.fired:
+            if ex is not None:
+                return f'a complete fit of {victim} on valid data raises {type(ex).__name__} ({str(ex)[:100]})', case
+            count('exception safety: point not reached')
+            continue
+        count('exception safety: interrupted fits')
+        count('exception safety: ' + ('fit ended by the injected exception' if ex is not None else 'injected exception swallowed'))
+        case['interrupted at'] = hook.where
+        again = None
+        if ex is not None and rng.random() < 0.5:
+            again = (f'the interrupted {victim} object, fitted again', est,
+                     {'Edmd(0)': 0.0, 'Edmd(alpha)': alpha, 'pipeline(Edmd)': alpha}.get(victim, None if victim != 'pipeline(poly, Edmd)' else 'skip'))
+            if again[2] == 'skip':
+                again = None
+        for tag, D in (('the same data', D2), ('the earlier data set', D1), ('another data set', D3)):
+            why = _complete_fits_ok(D, alpha, again if D is D2 else None)
+            if why:
+                case['failing data set'] = {'the same data': 'D2', 'the earlier data set': 'D1', 'another data set': 'D3'}[tag]
+                before = f"complete fits of {prior} on an earlier data set, then " if prior else ''
+                return (f'{why} - given {tag} - after {before}a fit of {victim} on D2 was stopped by {exc} at '
+                        f'{mode} event {k} of {total} in {which} ({hook.where}): the result of a complete fit depends on what '
+                        f'the process did before'), case
+            count('exception safety: complete fits checked afterwards')
+    return None, case
+
+
 def population_search(ctx):
     """failing-input search over a fresh population (also used when an exception raised inside the implementation
     ended the correspondence run early)"""
+    for i in range(12):
+        why, case = oracle_interrupted(ctx.rng)
+        if why:
+            ctx.fail(why, case, {'part': 'exception safety'})
+            return
     for i in range(300):
         c = gen(ctx.rng)
         why = oracle_opt(c, ctx.rng)
@@ -504,7 +769,12 @@ def run(ctx):
                 'pipeline clause: generated pipelines (delays at any position, split / nested / opaque stages, lifted width <= 24) '
                 'with Edmd(alpha >= 0) / EdmdMeta / Dmdc / Dmd on 1..6 episodes whose lengths run from min_samples_ over '
                 'min_samples_+1 .. 2*min_samples_ to long (mixed, long + short, only short; contiguous or interleaved; with and '
-                'without episode feature), noisy linear / random / noise-free data')
+                'without episode feature), noisy linear / random / noise-free data; exception safety: scenarios of 0..2 complete '
+                'fits (Edmd / EdmdMeta / Dmdc / Dmd / pipelines around them) on one noise-free data set, then a fit on a second data '
+                'set (same or other width) stopped by KeyboardInterrupt / MemoryError / an ordinary exception injected at every '
+                'line event of pykoop/regressors.py (or up to 40 sampled line events of all pykoop sources, or at entry of every '
+                'sub-call made from those files), then complete fits of fresh estimators - and of the interrupted object - on the '
+                'second, the first and a third data set')
     ctx.explanation = ('theorems C06_* over Matrix R (gap identity, optimality, uniqueness, scaling, recovery, SVD formula) '
                        'plus the certificate theorem for the rational driver; correspondence: coef_ vs exact rational '
                        'solution (1e-9 scale); oracle: gradient / perturbation optimality, recovery, pipeline = lifted regression; '
@@ -512,7 +782,11 @@ def run(ctx):
                        'hold n - min_samples_ + 1 samples of every episode, the snapshot pairs and the stacked least-squares optimum are '
                        'computed by the harness; KoopmanPipeline.fit must not raise, must leave the same lifting, and its coef_ must '
                        'attain the optimal cost, satisfy the normal equations and beat perturbations over ALL these pairs (other '
-                       'regressors: equal the same regressor fitted on the lifted data)')
+                       'regressors: equal the same regressor fitted on the lifted data); exception-safety oracle: what the process did '
+                       'before a complete fit is not a parameter of the property, so after every injected interruption (sys.settrace, '
+                       'every point in turn) each complete fit must recover the generating [A B] (alpha = 0, EdmdMeta, Dmdc, Dmd, '
+                       'pipelines), satisfy the normal equations of the snapshot pairs formed by the harness and attain the cost of the '
+                       'stacked least-squares optimum computed by the harness (alpha > 0), and must not raise')
     ctx.proof_obligations('Properties.C06', THEOREMS)
     drv = ctx.get_driver()
     lines, meta = [], []
@@ -559,6 +833,15 @@ def run(ctx):
             ctx.count('singular Gram matrix: H really rank-deficient')
         if why:
             ctx.fail(why, case, {'regressor': 'Edmd', 'part': 'singular Gram matrix'})
+
+    # exception safety / process-level state: complete fits after a fit that was stopped at an arbitrary point
+    for i in range(ctx.n(14, 120)):
+        why, case = oracle_interrupted(ctx.rng, ctx.count)
+        if case is not None:
+            ctx.record_case({k: case[k] for k in ('complete fits on D1 first', 'interrupted fit on D2', 'injected', 'event', 'files', 'alpha')}
+                            | {'D2': case['D2']['X'][:2]}, True)
+        if why:
+            ctx.fail(why, case, {'part': 'exception safety', 'regressor': case['interrupted fit on D2']})
 
     for i in range(ctx.n(150, 2000)):
         pc = gen_pipe_case(ctx.rng)
